@@ -16,24 +16,39 @@ C32 == AddTo(AddTo(<< >>, M3), M2)
 Member(n) == CASE n = "M1" -> M1 [] n = "M2" -> M2 [] n = "M3" -> M3 [] n = "E0" -> E0 [] n = "C12" -> C12 [] n = "C32" -> C32
 Names == {"M1", "M2", "M3", "E0", "C12", "C32"}
 
-VARIABLES comb, hist
-vars == <<comb, hist>>
-Init == comb = << >> /\ hist = << >>
+VARIABLES comb, hist, inner, added
+vars == <<comb, hist, inner, added>>
+\* comb  = the combined registry under observation;  inner = a second LIVE combined registry that is used as a member of the
+\* first and keeps growing afterwards (the same object is added again later);  added = what each addition brought along
+Init == comb = << >> /\ hist = << >> /\ inner = << >> /\ added = << >>
 Add(n) == /\ Len(hist) < MaxAdds
           /\ comb' = AddTo(comb, Member(n))
-          /\ hist' = Append(hist, n)
+          /\ hist' = Append(hist, n) /\ added' = Append(added, Member(n))
+          /\ UNCHANGED inner
+\* the live member receives one more member of its own ...
+GrowInner(n) == /\ Len(hist) < MaxAdds
+                /\ inner' = AddTo(inner, Member(n))
+                /\ hist' = Append(hist, "I:" \o n) /\ added' = Append(added, << >>)
+                /\ UNCHANGED comb
+\* ... and is added (again) to the combined registry: everything it holds NOW is merged, the first holder of an id wins
+AddInner == /\ Len(hist) < MaxAdds /\ inner # << >>
+            /\ comb' = AddTo(comb, inner)
+            /\ hist' = Append(hist, "I") /\ added' = Append(added, inner)
+            /\ UNCHANGED inner
 \* a registry may be looked at between two additions (len / iteration / lookup): nothing changes
 Observe == /\ Len(hist) < MaxAdds /\ hist # << >> /\ hist[Len(hist)] # "?"
-           /\ hist' = Append(hist, "?") /\ UNCHANGED comb
-Next == (\E n \in Names : Add(n)) \/ Observe
+           /\ hist' = Append(hist, "?") /\ added' = Append(added, << >>) /\ UNCHANGED <<comb, inner>>
+Next == (\E n \in Names : Add(n)) \/ (\E n \in {"M1", "M2", "M3"} : GrowInner(n)) \/ AddInner \/ Observe
 
 C20_KeysOnce == \A i, j \in 1..Len(comb) : i # j => comb[i].id # comb[j].id
-Adds == {k \in 1..Len(hist) : hist[k] # "?"}
-C20_UnionOfMembers == Ids(comb) = UNION {Ids(Member(hist[k])) : k \in Adds}
+Adds == 1..Len(added)
+C20_UnionOfMembers == Ids(comb) = UNION {Ids(added[k]) : k \in Adds}
 C20_FirstWins == \A i \in 1..Len(comb) :
-   LET first == CHOOSE k \in Adds : comb[i].id \in Ids(Member(hist[k])) /\ \A k2 \in Adds : k2 < k => comb[i].id \notin Ids(Member(hist[k2]))
-       m == Member(hist[first])
+   LET first == CHOOSE k \in Adds : comb[i].id \in Ids(added[k]) /\ \A k2 \in Adds : k2 < k => comb[i].id \notin Ids(added[k2])
+       m == added[first]
    IN \E x \in 1..Len(m) : m[x].id = comb[i].id /\ m[x].tag = comb[i].tag
-C20_AddingTwiceChangesNothing == \A k \in Adds : AddTo(comb, Member(hist[k])) = comb
+C20_AddingTwiceChangesNothing == \A k \in Adds : AddTo(comb, added[k]) = comb
+\* once the live member has been added in its present state, the combined registry holds every key the member holds
+C20_LiveMemberCovered == (hist # << >> /\ hist[Len(hist)] = "I") => Ids(inner) \subseteq Ids(comb)
 ASSUME PrintT(<<"WORLD", [n \in Names |-> Member(n)]>>)
 =============================================================================
